@@ -286,7 +286,12 @@ def eval_maxsize(case):
         return [(key + ":setup_raises:" + _exc_name(e), f"raised {e!r}")]
     admissible = HS.admissible(name, p, ctxs) and n <= 4096
     capped = name in ("cisco_pix", "cisco_asa")
-    for op, f in (("hash", lambda: hf(p)), ("verify", lambda: vf(p, small))):
+    ops = [("hash", lambda: hf(p)), ("verify", lambda: vf(p, small))]
+    if via != "hasher":
+        # the account does not exist (hash None): the same refusal as for an account that does -- an oversized
+        # password must not tell the two apart
+        ops.append(("verify_none", lambda: vf(p, None)))
+    for op, f in ops:
         try:
             r = f()
             err = None
